@@ -782,4 +782,40 @@ theorem vars_reparse (pf : SPrefs) (s s0 : Vars) (h : VInv s) (hr : s0.readonly 
   rw [vSerialized_eq, vSerialized_eq]
   simp only [h1, hw]
 
+/-- T10.8 (variables block, exact text under the default preferences): a block of variables only whose written names
+and value texts are ordinary words (`Solid`: not empty, no white space at the ends, none of the punctuation strings
+`Out.append` reacts to) is written `name: value` per variable, joined by `;` and a line break — white space included -/
+theorem vars_cssText_exact_default (re : REnv) (il : Nat) (s : Vars) (hne : s.seq ≠ []) (hs : SolidVars re s.seq) :
+    vCssTextP SPrefs.default re il s = vBody re s.seq :=
+  vCssTextP_exact_default re il s hne hs
+
+/-- satisfiable: `x: 1; y: 2` -/
+example : solidWitness.seq ≠ [] ∧ SolidVars REnv.default solidWitness.seq ∧
+    vBody REnv.default solidWitness.seq = cps "x: 1;\ny: 2" := by
+  refine ⟨by decide, ⟨?_, ?_, ?_, ?_, trivial⟩, by decide⟩ <;>
+    exact solid_single _ (by decide) (by decide) (by decide) (by decide) (by decide)
+
+/-! ## T10.6 (continued) attribute-style access
+
+Model: `Model/DeclAttr.lean` — the generated properties as a table from the regenerated names, `getattr` / `setattr` /
+`delattr` through `_getP` / `_setP` / `_delP`. -/
+
+/-- T10.6 for every known property name `n`: the attribute `_toDOMname(n)` exists, its accessors use exactly `n`, and
+reading, assigning and deleting it are `getPropertyValue(n)`, `setProperty(n, value)` and `removeProperty(n)` — at
+every block -/
+theorem attr_access_is_css_access (env : Env) (d : Decl) (value : Option Cps) :
+    ∀ n ∈ CssVerif.Gen.C10.propertyNames,
+      attrCss (toDOM n) = some n ∧
+      attrGet d.seq (toDOM n) = some (getPropertyValue d.seq n true) ∧
+      attrSet env d (toDOM n) value = some (setProperty env d n value [] true true) ∧
+      attrDel d (toDOM n) = some (removeProperty d n true) := by
+  intro n hn
+  have h := attrCss_known dom_names_roundtrip n hn
+  simp [attrGet, attrSet, attrDel, h]
+
+/-- a name that is not the DOM name of a known property has no attribute (`AttributeError`) -/
+theorem attr_unknown : attrCss (cps "fooBar") = none ∧ attrCss (cps "font-style") = none ∧
+    attrCss (cps "fontStyle") = some (cps "font-style") := by
+  decide +kernel
+
 end CssVerif.C10
